@@ -31,6 +31,9 @@ structure Ops (V : Type) where
   /-- order in which `TuplePrior` members are placed in the tuple (the code sorts member names
   by `(prefix, position)`; the concrete order used by the driver is `AF.posLe`) -/
   nameLe : String → String → Bool
+  /-- comparison of values (`<`, `<=` of Python floats: false when an operand is NaN) -/
+  lt : V → V → Bool
+  le : V → V → Bool
 
 abbrev Path := List String
 
